@@ -24,7 +24,8 @@ ENGINE = "eqlmc-E1"
 CASE_TIMEOUT_S = 600       # one case is a whole rewrite orbit (hundreds of builds and evaluations)
 RULE = ("cases = base queries; for each the orbit under the rewrite generators is enumerated breadth-first up to k "
         "compositions and every member is evaluated (transitions = evaluations); non-trivial = the base result is neither "
-        "empty nor the full product and the orbit has more than one member")
+        "empty nor the full product and the orbit has more than one member"
+        ' Wave 7: for_all conditions as operands of conjunctions and disjunctions (universal over a variable of its own, over the un-nested elements of y.t); three-way disjunctions with one variable projected away over small worlds.')
 ASSUMPTIONS = ["result sets compared", "values non-falsy (falsy: C19)"]
 BATCH = 20
 TASKS_PER_CHILD = 4
